@@ -273,6 +273,17 @@ class World:
                             r = ds.triples(pat + (self.ctx(n),))
                         ctxq.append({"g": n, "how": how, "p": p, "r": [v.abs_triple(t) for t in r]})
             o["ctxq"] = ctxq
+            # quad patterns that name a graph (the default graph only when it is not the union), and the graphs that hold a triple
+            quadq = []
+            for n in names:
+                if n == "D" and self.cfg.get("default_union"):
+                    continue
+                ident = self.ctx(n) if n == "D" else v.gid(n)
+                for p in self.PATS:
+                    quadq.append({"g": n, "p": p, "r": [v.abs_triple(q) + [v.gabs(q[3])] for q in ds.quads(v.triple(p) + (ident,))]})
+            o["quadq"] = quadq
+            lister = ds.graphs if self.facade == "dataset" else ds.contexts
+            o["gof"] = [{"t": t, "r": [v.gabs(g) for g in lister(v.triple(t))]} for t in self.U]
             o["union"] = [{"p": p, "r": [v.abs_triple(t) for t in ds.triples(v.triple(p))]} for p in self.PATS]
             if self.cfg.get("default_union"):
                 o["ulen"] = len(ds)
